@@ -101,6 +101,7 @@ def run(rep, tier):
         trace_entry(rep, meta, sfx)
         minzero(rep, meta, sfx)
         allrules(rep, meta, sfx)
+        trivia_nonatomic(rep, meta, sfx)
         resolve(rep, meta, sfx)
         wiring(rep, meta, f, sfx)
 
@@ -812,3 +813,38 @@ def allrules(rep, meta, sfx):
                     r.violation(key + ":break", where(y), "%s leaves its loop over the rules early" % fn["name"])
     if n == 0:
         r.lost("validation passes over the rule list that ask is_non_failing / is_non_progressing")
+
+
+# ------------------------------------------------------------------ TRIVIA (implicit calls inside `!` rules)
+
+def trivia_nonatomic(rep, meta, sfx):
+    """WHITESPACE and COMMENT bodies run atomically (C02.RULE), which is why the validator may ignore the implicit trivia
+    calls when it looks for recursion.  A `!` (non-atomic) rule *called from* a trivia rule switches implicit skipping
+    back on: inside it every sequence / repetition junction calls WHITESPACE again without consuming anything."""
+    r = rep.rule("C06.TRIVIA" + sfx, 1,
+                 "the validation that guarantees termination takes the rule modifiers into account: a non-atomic (`!`) rule "
+                 "reachable from WHITESPACE / COMMENT re-enables implicit skipping inside the trivia body, so its junctions "
+                 "are calls of WHITESPACE that the left-recursion walk must see - a validator that never looks at a rule's "
+                 "type cannot exclude `WHITESPACE = { \" \" | c }  c = !{ \"a\"? ~ \"b\" }`")
+    va = meta.fn("pest_meta::validator::validate_ast")
+    if va is None:
+        r.lost("validator::validate_ast")
+        return
+    reach = hirq.CallGraph([meta]).reachable([va["path"]]) | {va["path"]}
+    looks = []
+    for p in sorted(reach):
+        fn = meta.fn(p)
+        if fn is None or fn.get("body") is None or not p.startswith("pest_meta::validator::"):
+            continue
+        for x in walk(fn["body"]):
+            if kind(x) == "Field" and x["name"] == "ty" and "ParserRule" in str(x.get("bty", "")):
+                looks.append((fn, x))
+            if kind(x) == "Path" and str(x.get("path", "")).startswith("pest_meta::ast::RuleType::"):
+                looks.append((fn, x))
+            if x.get("k") in ("PPath", "PStruct", "PTupleStruct") and str(x.get("path", "")).startswith("pest_meta::ast::RuleType::"):
+                looks.append((fn, x))
+    r.instance("ruletype-consulted", where(va["body"]), "%d places" % len(looks))
+    if not looks:
+        r.violation("ruletype-ignored", where(va["body"]),
+                    "no validation pass reads a rule's modifier: recursion through the implicit WHITESPACE/COMMENT calls "
+                    "inside a `!` rule that a trivia rule refers to is accepted and overflows the stack at parse time")
